@@ -65,7 +65,7 @@ def work(arg):
         from . import loader
         from .explorer import Explorer, solve
         from .env import SymEnv
-        tt = loader.load()
+        tt = loader.load(shim=opts.get('shim', 'value'))
         SCEN = _scen_modules()
         fn = SCEN[case['scen']]
         ex = Explorer(logic=opts.get('logic', 'QF_NRA'), qtimeout_ms=opts.get('qtimeout_ms', 20000),
@@ -144,7 +144,7 @@ def exact_trace(arg):
         from . import loader
         from .env import ExactEnv
         from .explorer import Explorer
-        tt = loader.load()
+        tt = loader.load(shim=opts.get('shim', 'value'))
         SCEN = _scen_modules()
         holder = {}
 
